@@ -186,6 +186,18 @@ def gen_tree(rng, d, top=True):
     if top and rng.random() < 0.12:                                    # an aggregate directly over a feature, alone or inside arithmetic
         t = ['fun', rng.choice(AGG), ['name', rng.choice(['a', 'b', 's'])]]
         return t if rng.random() < 0.5 else ['bin', rng.choice(['+', '-', '*']), t, gen_tree(rng, 1, False)]
+    if top and rng.random() < 0.1:
+        # aggregates evaluated AFTER other intermediate results of the same expression (a normalisation, a centred sum): every intermediate result is its own value
+        nm = lambda: ['name', rng.choice(['a', 'b', 's'])]
+        agg = lambda: ['fun', rng.choice(AGG), nm()]
+        form = rng.randrange(4)
+        if form == 0:
+            return ['bin', rng.choice('+-'), ['bin', '*', nm(), ['par', ['bin', '+', nm(), ['lit', '1']]]], agg()]
+        if form == 1:
+            return ['bin', '-', ['bin', '+', nm(), agg()], agg()]
+        if form == 2:
+            return ['bin', '+', ['bin', '-', nm(), agg()], ['bin', '*', ['lit', '2'], agg()]]
+        return ['bin', '/', ['par', ['bin', '-', nm(), agg()]], ['par', ['bin', '+', ['bin', '-', agg(), agg()], ['lit', '3']]]]
     if top and rng.random() < 0.08:                                    # a pointwise function of a product / quotient of features: zeros of either sign, NaN
         inner = ['bin', rng.choice(['*', '*', '/']), ['name', rng.choice(['a', 'b', 's'])], rng.choice([['name', rng.choice(['a', 'b', 's'])], ['neg', ['lit', rng.choice(['2', '0.5'])]]])]
         return ['fun', rng.choice(['SIGN', 'SIGN', 'ABS', 'DIODE']), inner]
@@ -343,7 +355,7 @@ def gen_trees(rng, n, tier):
             continue
         lhs = rng.choice([None, None, None, 'c', 'a', 'x', 'y', 'z'])
         if rng.random() < 0.2:                    # a fourth feature, under a name close to the reserved ones (substrings of "xyzt", prefixes of keywords) or an ordinary one; often the target
-            nm = rng.choice(['xy', 'yz', 'zt', 'xyz', 'xyzt', 'id', 'tx', 'ab', 'p', 'x2', 'inf', 'nan', 'Inf', 'sup'])        # ... or a name that float() would accept
+            nm = rng.choice(['xy', 'yz', 'zt', 'xyz', 'xyzt', 'id', 'tx', 'ab', 'p', 'x2', 'inf', 'nan', 'Inf', 'sup', 'pi', 'PI', 'pi', 'e', 'tau', 'E'])        # ... or a name that float() would accept, or the name of a mathematical constant
             c['extra'] = [nm, [rng.choice([1, 2, -1, 0.5, 7]) for _ in c['X']]]
             lhs = rng.choice([nm, nm, nm, None, 'c'])
             if rng.random() < 0.5 and not c.get('exact'):        # the fourth feature as an operand
